@@ -57,6 +57,7 @@ unsigned vp_c04_start_encryption_calls();
 unsigned vp_c04_disconnects();                       // XmppSocket::disconnectFromHost calls
 unsigned vp_c04_sig_connected();                     // QXmppOutgoingClient::connected(SessionBegin) emissions (session opened)
 unsigned vp_c04_sig_error();                         // QXmppOutgoingClient::errorOccurred emissions
+void vp_c04_reset_logs();                           // socket log, disconnect / signal counters := 0
 unsigned vp_c04_cfg();                               // case split of the instance (-DVP_CFG on the C side)
 bool vp_c04_false();
 }
@@ -106,7 +107,9 @@ void FastTokenManager::onSasl2Success(const Sasl2::Success &) { }
 template<typename T> union VpTyped { T v; VpTyped() { } ~VpTyped() { } T *p() { return &v; } T *operator->() { return &v; } };
 
 // instance configuration bits (cdefs VP_CFG): structural choices are compile-time constants, values stay symbolic
-enum { CFG_SSL_LOCAL = 1, CFG_STREAM_ID = 2, CFG_STREAM_FROM = 4, CFG_STREAM_VERSION = 8, CFG_STREAM_SYM = 16 /* id/from/version: 0..2 units each, emptiness symbolic */, CFG_TLS_SHIFT = 5, CFG_S2_SHIFT = 7, CFG_SSL_SYM = 512 /* local TLS support: symbolic */ };
+enum { CFG_SSL_LOCAL = 1, CFG_STREAM_ID = 2, CFG_STREAM_FROM = 4, CFG_STREAM_VERSION = 8, CFG_STREAM_SYM = 16 /* id/from/version: 0..2 units each, emptiness symbolic */, CFG_TLS_SHIFT = 5, CFG_S2_SHIFT = 7,
+       CFG_PRE_STARTTLS = 512 /* pre-state: STARTTLS requested, StarttlsManager listens (reached through a real features step) */,
+       CFG_EL_SHIFT = 10 /* event-specific case bits */ };
 
 struct Fx {
     VpTyped<QXmppOutgoingClientPrivate> priv;
@@ -135,7 +138,7 @@ struct Fx {
         d->config.setPassword(vpSymString(2));
         d->config.setResource(vpSymString(2));
         // --- socket and the environment answers
-        sslLocal = (vp_c04_cfg() & CFG_SSL_SYM) ? vp_bool() : (vp_c04_cfg() & CFG_SSL_LOCAL) != 0;
+        sslLocal = (vp_c04_cfg() & CFG_SSL_LOCAL) != 0;
         vp_c04_env(true, false, sslLocal);
         FakeSock *s = new (&d->socket) FakeSock();
         s->m_socket = reinterpret_cast<QSslSocket *>(ssl);
@@ -179,6 +182,17 @@ struct Fx {
         d->pingManager.pingTimer = reinterpret_cast<QTimer *>(timer[0]);
         d->pingManager.timeoutTimer = reinterpret_cast<QTimer *>(timer[1]);
         d->q = q;
+        if (vp_c04_cfg() & CFG_PRE_STARTTLS) toStarttls();
+    }
+    // the other listener INV allows: the state handleStarttls() leaves behind (its continuation is a lambda local to that function, so
+    // the state is reached by running the REAL step on features that offer STARTTLS); the ghost logs restart afterwards
+    void toStarttls()
+    {
+        QXmppStreamFeatures f;
+        f.setTlsMode(vp_bool() ? QXmppStreamFeatures::Required : QXmppStreamFeatures::Enabled);
+        q->handleStreamFeatures(f);
+        vp_assume(listenerIsStarttls());
+        vp_c04_reset_logs();
     }
     bool listenerIsClient() const { return d->listener.index() == 0; }
     bool listenerIsStarttls() const { return d->listener.index() == 1; }
